@@ -59,8 +59,15 @@ func checkC05(c *Ctx) {
 			for _, a := range acc {
 				v := retValue(a.ret, 0)
 				call, _ := callResult(v)
-				if call == nil || calleeOf(&call.Call).Name != s.post {
+				if call == nil {
 					continue
+				}
+				if calleeOf(&call.Call).Name != s.post {
+					// a helper of the package that applies post to what it is given (isOneGT(&f))
+					h := call.Call.StaticCallee()
+					if h == nil || h.Blocks == nil || fnPkgPath(h) != fnPkgPath(fn) || !reachesCallee(h, s.post) {
+						continue
+					}
 				}
 				infl := false
 				seen := map[ssa.Value]bool{}
@@ -102,22 +109,43 @@ func checkC05(c *Ctx) {
 		}
 		// filter
 		if fn := p.Func(pk, "", "MillerLoop"); fn != nil {
-			var appends []ssa.Instruction
-			for _, b := range fn.Blocks {
-				for _, in := range b.Instrs {
-					if call, ok := in.(*ssa.Call); ok {
-						if bi, ok := call.Call.Value.(*ssa.Builtin); ok && bi.Name() == "append" && len(call.Call.Args) == 2 {
-							// append of an element taken from P or Q
-							if d := descValue(call.Call.Args[1], 0); d == "[p0[*]]" || d == "[p1[*]]" {
-								appends = append(appends, in)
+			// the filtering loop is in MillerLoop itself or in a helper of the package that receives P
+			// and Q (in whatever positions): find the function that appends elements of both
+			host, iP, iQ := fn, 0, 1
+			findAppends := func(f *ssa.Function, iP, iQ int) []ssa.Instruction {
+				var appends []ssa.Instruction
+				wantP, wantQ := fmt.Sprintf("[p%d[*]]", iP), fmt.Sprintf("[p%d[*]]", iQ)
+				for _, b := range f.Blocks {
+					for _, in := range b.Instrs {
+						if call, ok := in.(*ssa.Call); ok {
+							if bi, ok := call.Call.Value.(*ssa.Builtin); ok && bi.Name() == "append" && len(call.Call.Args) == 2 {
+								// append of an element taken from P or Q
+								if d := descValue(call.Call.Args[1], 0); d == wantP || d == wantQ {
+									appends = append(appends, in)
+								}
 							}
 						}
 					}
 				}
+				return appends
 			}
-			RequireFactsAtInstr(c, p, "C05.filter", fn, appends, "pair-kept", []Req{
-				{"P[k]-finite", `^not G1Affine\.IsInfinity\(p0\[\*\]\)$`},
-				{"Q[k]-finite", `^not G2Affine\.IsInfinity\(p1\[\*\]\)$`},
+			appends := findAppends(fn, 0, 1)
+			if len(appends) == 0 {
+				for _, fw := range forwardedHelpers(fn) {
+					jp, okP := fw.param[0]
+					jq, okQ := fw.param[1]
+					if !okP || !okQ {
+						continue
+					}
+					if ap := findAppends(fw.callee, jp, jq); len(ap) > 0 {
+						host, iP, iQ, appends = fw.callee, jp, jq, ap
+						break
+					}
+				}
+			}
+			RequireFactsAtInstr(c, p, "C05.filter", host, appends, "pair-kept", []Req{
+				{"P[k]-finite", fmt.Sprintf(`^not G1Affine\.IsInfinity\(p%d\[\*\]\)$`, iP)},
+				{"Q[k]-finite", fmt.Sprintf(`^not G2Affine\.IsInfinity\(p%d\[\*\]\)$`, iQ)},
 			})
 		}
 		// effects
